@@ -145,21 +145,6 @@ fn end_of_history<E: Elem>(out: &mut Out, w: &mut World<E>) {
     }
 }
 
-/// zero-sized element type with drop glue
-#[derive(Default, Clone, Debug)]
-pub struct Zd;
-static ZD_DROPS: std::sync::atomic::AtomicU64 = std::sync::atomic::AtomicU64::new(0);
-impl Drop for Zd {
-    fn drop(&mut self) { ZD_DROPS.fetch_add(1, std::sync::atomic::Ordering::Relaxed); }
-}
-impl Elem for Zd {
-    const ZST: bool = true;
-    const KIND: &'static str = "unit";
-    fn make(_: String) -> Self { Zd }
-    fn show(&self) -> String { "u".to_string() }
-    fn dflt() -> Self { Zd }
-}
-
 pub fn run_c01(out: &mut Out, rng: &mut Rng, tier: Tier) -> String {
     ledger_reset();
     let (n, len) = if tier == Tier::Quick { (300, 14) } else { (4000, 40) };
@@ -224,12 +209,16 @@ pub fn run_c01(out: &mut Out, rng: &mut Rng, tier: Tier) -> String {
         let mut w = World::<()>::new(out);
         for _ in 0..4 + rng.below(len) { generic_step(out, &mut w, rng); }
         end_of_history(out, &mut w);
-        out.case(&format!("history {k} elem=zst-with-drop"));
-        let made_before = ZD_DROPS.load(std::sync::atomic::Ordering::Relaxed);
-        let _ = made_before;
+        out.case(&format!("history {k} elem=zst-with-drop ledger-deltas"));
         let mut w = World::<Zd>::new(out);
+        out.led_mode = true;
         for _ in 0..4 + rng.below(len) { generic_step(out, &mut w, rng); }
         end_of_history(out, &mut w);
+        out.led_mode = false;
+        let s = snapshot();
+        if s.zst_live != 0 || s.zst_overdrops != 0 {
+            out.oracle_fail(&format!("zero-sized elements with drop glue at the end of the history: created - dropped = {}, drops beyond creations = {}", s.zst_live, s.zst_overdrops));
+        }
         out.count("histories:other-elements");
         out.nontrivial();
     }
